@@ -43,7 +43,7 @@ ObsLoggerOK(s, l, o) ==
     /\ Has(o, "parent") => o.parent = s.parent[l]
     /\ Has(o, "root") => o.root = RootOf(s, l)
     /\ Has(o, "shape") => o.shape = Fmt(s.cfg[l])
-    /\ Has(o, "attrs") => o.attrs = Merge(s.cfg[l].attrs)
+    /\ Has(o, "attrs") => o.attrs = Leaves(s.cfg[l].attrs, <<>>)
     /\ Has(o, "each") => o.each = EachOf(s, l)
     /\ Has(o, "sub") => \A x \in 1..Len(o.sub) :
             LET c == SubCands(s, l, o.sub[x].name)
@@ -66,6 +66,9 @@ ObsMatch(s, e, s2) ==
     /\ (e.op = "LogF" /\ Has(e, "evs")) => SameBag(e.evs, Deliver(s2, e.l, e.a, FailSets[e.b]))
     \* C02: one whole Write per destination iff admitted, whatever the arguments
     /\ (e.op = "LogA" /\ Has(e, "evs")) => SameBag(e.evs, ExpectA(s2, e))
+    \* C07: the attributes printed for the record, flattened in printed order
+    /\ (e.op = "LogM" /\ Has(e, "leaves")) => e.leaves = ExpectM(s2, e)
+    /\ Has(e, "attrsR") => e.attrsR = s2.attrsR
     /\ Has(e, "outcome") => e.outcome = "ret"
     /\ Has(e, "obs") => /\ Len(e.obs) = s2.n
                         /\ \A l \in 1..s2.n : ObsLoggerOK(s2, l, e.obs[l])
@@ -74,7 +77,8 @@ ObsMatch(s, e, s2) ==
 Expect(s, e) ==
     IF ~Guard(s, e) THEN "call not allowed by the model in this state"
     ELSE LET s2 == CHOOSE x \in Step(s, e) : TRUE
-         IN ToJson([ret |-> Ret(s, e, s2), deliver |-> (IF e.op = "LogF" THEN Deliver(s2, e.l, e.a, FailSets[e.b]) ELSE IF e.op = "LogA" THEN ExpectA(s2, e) ELSE <<>>), dbg |-> s2.dbg, deflvl |-> s2.deflvl, n |-> s2.n,
+         IN ToJson([ret |-> Ret(s, e, s2), deliver |-> (IF e.op = "LogF" THEN Deliver(s2, e.l, e.a, FailSets[e.b]) ELSE IF e.op = "LogA" THEN ExpectA(s2, e) ELSE <<>>),
+                    leaves |-> (IF e.op = "LogM" THEN ExpectM(s2, e) ELSE <<>>), dbg |-> s2.dbg, deflvl |-> s2.deflvl, n |-> s2.n,
                     cfg |-> [l \in 1..s2.n |-> [json |-> s2.cfg[l].json, color |-> s2.cfg[l].color,
                                                level |-> s2.cfg[l].level, skip |-> s2.cfg[l].skip,
                                                name |-> s2.name[l], parent |-> s2.parent[l],
